@@ -435,15 +435,16 @@ fn bind_range_index(
         };
 
     let rhs_len = rhs_items.len();
+    // An omitted end refers to the end of the list being assigned to.
+    let list_len = lock_deref!(lhs_items).len();
     let end =
         if let Some(end) = maybe_end {
             eval::eval_expr_to_index(context, scopes, end)
                     .context(EvalEndIndexFailed)?
         } else {
-            rhs_len
+            list_len
         };
 
-    let list_len = lock_deref!(lhs_items).len();
     if start > list_len {
         return new_loc_err(Error::RangeStartOutOfListBounds{start, list_len});
     } else if start >= end {
